@@ -18,3 +18,23 @@ fmt_test_item!(  annotated_enum
                 bar   : (),
             }"
 );
+
+fmt_test_item!(  enum_with_where_clause
+"pub enum HasWhereClause<T, A>
+where
+    T: Something,
+    A: Something,
+{
+    t: T,
+    a: A,
+}",
+            intermediate_whitespace
+"pub  enum  HasWhereClause <  T, A >
+   where
+     T: Something,
+    A :   Something,
+ {
+    t  : T,
+    a : A,
+} "
+);
